@@ -32,3 +32,64 @@ Proof.
   exact (Hloop rest d []).
 Qed.
 Print Assumptions gen_merge_small_dims_eq_model.
+
+(* ---- multi_dim_split ----------------------------------------------------------------------------------------- *)
+(* A tensor is a strided view (offset, sizes, strides) on both sides; torch.split is PyPrelude.pv_split (ATen's chunking,
+   RuntimeError for split_size <= 0), the model's is Blocking.split_dim.  For every view and every split_size >= 1 (what the
+   model's theorems assume: 1 <= max_preconditioner_dim) the regenerated reduce-over-dimensions equals the model, so neither
+   pv_split's argument checks nor its dimension check can fire. *)
+Definition to_pv (v : view) : py_view := mk_view (voff v) (vsizes v) (vstrides v).
+
+Lemma set_nth_pv d x l : pv_set_nth d x l = Blocking.set_nth d x l.
+Proof. revert d; induction l as [|y r IH]; intro d; [destruct d; reflexivity|]. destruct d; cbn [pv_set_nth Blocking.set_nth]; [reflexivity|]. rewrite IH. reflexivity. Qed.
+
+Lemma set_nth_length d x l : length (Blocking.set_nth d x l) = length l.
+Proof. revert d; induction l as [|y r IH]; intro d; [destruct d; reflexivity|]. destruct d; cbn [Blocking.set_nth length]; [reflexivity|]. rewrite IH. reflexivity. Qed.
+
+Lemma split_dim_dims b d v bl : In bl (split_dim b d v) -> length (vsizes bl) = length (vsizes v).
+Proof. unfold split_dim. intro H. apply in_map_iff in H as [c [<- _]]. cbn [narrow vsizes]. apply set_nth_length. Qed.
+
+Lemma pv_split_eq_model b d v : 1 <= b -> (d < length (vsizes v))%nat ->
+  pv_split (to_pv v) b (Z.of_nat d) = Ret (map to_pv (split_dim b d v)).
+Proof.
+  intros Hb Hd. unfold pv_split, pv_dim, py_len, to_pv. cbn [pv_sizes pv_off pv_strides].
+  destruct (Z.leb_spec b 0); [lia|]. destruct (Z.ltb_spec (Z.of_nat d) 0); [lia|].
+  destruct (Z.leb_spec (Z.of_nat (length (vsizes v))) (Z.of_nat d)); [lia|]. cbn [orb]. rewrite Nat2Z.id. cbv zeta. apply f_equal.
+  unfold split_dim, split_chunks, Zrange, py_range. rewrite Z.sub_0_r, !map_map. apply map_ext. intro i. cbn [fst snd Z.add].
+  unfold pv_narrow, narrow. cbn [pv_off pv_sizes pv_strides voff vsizes vstrides]. rewrite set_nth_pv. reflexivity.
+Qed.
+
+Lemma mapM_ret_in' {A B} (f : A -> result B) (g : A -> B) l : (forall x, In x l -> f x = Ret (g x)) -> py_mapM f l = Ret (map g l).
+Proof.
+  induction l as [|x l IH]; intro H; [reflexivity|]. cbn [py_mapM map].
+  rewrite (H x (or_introl eq_refl)), IH by (intros y Hy; apply H; right; exact Hy). reflexivity.
+Qed.
+
+Theorem gen_multi_dim_split_eq_model :
+  forall (v : view) (b : Z), 1 <= b ->
+  GenC05.multi_dim_split (to_pv v) b = Ret (map to_pv (Blocking.multi_dim_split v b)).
+Proof.
+  intros v b Hb. unfold GenC05.multi_dim_split, Blocking.multi_dim_split, pv_dim, py_len, py_range. cbn [to_pv pv_sizes].
+  rewrite Z.sub_0_r, Nat2Z.id.
+  set (n := length (vsizes v)).
+  assert (Hgen : forall ds blocks, (forall d, In d ds -> (d < n)%nat) -> (forall bl, In bl blocks -> length (vsizes bl) = n) ->
+            forall body, (forall st (d : nat), body st (0 + Z.of_nat d) = bind (py_mapM (fun t => bind (pv_split t b (Z.of_nat d)) (fun x => Ret x)) st) (fun ll => Ret (concat ll))) ->
+            py_for body (map (fun k => 0 + Z.of_nat k) ds) (map to_pv blocks)
+            = Ret (map to_pv (fold_left (fun blocks d => flat_map (split_dim b d) blocks) ds blocks))).
+  { induction ds as [|d ds IH]; intros blocks Hds Hbl body Hbody; [reflexivity|]. cbn [map py_for fold_left]. rewrite Hbody.
+    rewrite (mapM_ret_in' _ (fun t => match t with mk_view o s st => map to_pv (split_dim b d {| voff := o; vsizes := s; vstrides := st |}) end)).
+    - cbn [bind]. rewrite map_map.
+      assert (E : concat (map (fun x => match to_pv x with mk_view o s st => map to_pv (split_dim b d {| voff := o; vsizes := s; vstrides := st |}) end) blocks)
+                  = map to_pv (flat_map (split_dim b d) blocks)).
+      { rewrite flat_map_concat_map, concat_map, map_map. apply f_equal. apply map_ext. intros [o s st]. reflexivity. }
+      rewrite E. apply IH; [intros d' H; apply Hds; right; exact H| |exact Hbody].
+      intros bl H. apply in_flat_map in H as [bl0 [H0 H1]]. rewrite (split_dim_dims _ _ _ _ H1). apply Hbl. exact H0.
+    - intros t Ht. apply in_map_iff in Ht as [bl [<- Hin]]. destruct bl as [o s st].
+      rewrite (pv_split_eq_model b d {| voff := o; vsizes := s; vstrides := st |} Hb) by (pose proof (Hbl _ Hin) as Hl; cbn [vsizes] in Hl |- *; rewrite Hl; apply Hds; left; reflexivity).
+      reflexivity. }
+  cbv zeta. rewrite ?bind_ret_r. change [to_pv v] with (map to_pv [v]). apply Hgen.
+  - intros d H. apply in_seq in H. lia.
+  - intros bl [<-|[]]. reflexivity.
+  - intros st d. cbn [Z.add]. reflexivity.
+Qed.
+Print Assumptions gen_multi_dim_split_eq_model.
